@@ -232,6 +232,7 @@ void register_fault();
 void register_errtext();
 void register_bytes();
 void register_long();
+void register_state();
 
 // values around which the decimal rendering and the counter arithmetic change size
 inline std::vector<std::uint64_t> const &lattice()
